@@ -278,6 +278,42 @@ def check_conv(case):
     return None
 
 
+# ------------------------------------------------------------------------------------ oracle self-test
+def ref_selftest(case):
+    """The reference must agree with itself: complex-step derivatives (which every gradient oracle uses) vs central
+    finite differences of the *same* NumPy reference run in float64.  A disagreement is a harness error, never a
+    violation: it means a complex-safe re-definition does not match the real kernel's derivative."""
+    from vf.common import HarnessError
+
+    prog, L, seed = case["prog"], case["L"], case["seed"]
+    exp = ir.expected_after_backward(prog, L, seed=seed)
+    if exp.kinks or not np.isfinite(exp.gmax) or exp.gmax > 1e4 or exp.vmax > 1e3 or exp.ref.lowprec:
+        return  # (a dtype=float32 option makes finite differences meaningless)
+    ref = exp.ref
+    g = ir.seed_array(seed, ref.env[L].shape)
+    eps = 1e-6
+    for h, eg in exp.grads.items():
+        if eg is None or ref.owner[h] != h or eg.size == 0:
+            continue
+        st_idx = ref.last_write[h]
+        for k in range(eg.size):
+            vals = []
+            for sgn in (+1, -1):
+                r = ir.RefRun(prog)
+                for idx, s_ in enumerate(prog["stmts"]):
+                    r.exec(idx, s_)
+                    if idx == st_idx:
+                        a = r.env[h]
+                        ix = np.unravel_index(k, a.shape) if a.ndim else ()
+                        a[ix] += sgn * eps
+                vals.append(float(np.sum(g * r.env[L])))
+            fd = (vals[0] - vals[1]) / (2 * eps)
+            cs = float(eg.reshape(-1)[k])
+            if abs(fd - cs) > 1e-4 * (1 + abs(cs)) + 1e-5 * (1 + exp.gmax) * (1 + exp.vmax):
+                raise HarnessError(f"REF self-test: op {case['op']}: complex-step {cs!r} vs finite difference {fd!r} for h{h}[{k}]; "
+                                   f"program {prog['stmts']}")
+
+
 # ------------------------------------------------------------------------------------ registry coverage
 
 
@@ -305,7 +341,7 @@ NCONV = {"quick": 200, "thorough": 3000}
 def shard_plan(tier):
     from vf.checks import c02_layers  # noqa: F401
 
-    return [f"ops{i}" for i in range(11)] + ["conv0"] + [f"layers{i}" for i in range(4)]
+    return [f"ops{i}" for i in range(10)] + ["refself0", "conv0"] + [f"layers{i}" for i in range(4)]
 
 
 def run_shard(shard, seed, tier):
@@ -313,6 +349,15 @@ def run_shard(shard, seed, tier):
     if shard.startswith("ops"):
         viol = drive(prop=PROPERTY, name="vjp", strategy=cases(), check_case=lambda c: check_case(c, rec), rec=rec, seed=seed,
                      max_examples=N[tier])
+    elif shard.startswith("refself"):
+        def cs(case):
+            rec.note([[s_.get("op"), s_.get("p"), s_.get("shape")] for s_ in case["prog"]["stmts"]], True, ["ref_selftest"],
+                     sample={"op": case["op"], "stmts": case["prog"]["stmts"]})
+            ref_selftest(case)
+            return None
+
+        viol = drive(prop=PROPERTY, name="ref_selftest", strategy=cases(), check_case=cs, rec=rec, seed=seed,
+                     max_examples=N[tier] // 2)
     elif shard.startswith("conv"):
         def cc(case):
             rec.note(case, True, ["convention_" + case["kind"]], sample=case)
